@@ -11,6 +11,21 @@ import Matreex.Model.Core
 namespace Matreex.Bridge
 open Matreex
 
+/-- unfold the checked machine operations into their side conditions, split on every condition,
+discharge the overflow branches with the precondition and the value branches by arithmetic.
+Written to survive behaviour-preserving rewrites of the source (reordered or renamed `let`s,
+commuted operands, `!(a < b)` for `a >= b`): the proof does not depend on the shape of the term -/
+macro "bridge_arith" : tactic => `(tactic| (
+  simp only [umul, uadd, usub, udiv, urem, checkedMul, saturatingMul, okOr, bind, Except.bind, pure, Except.pure]
+  repeat' split
+  all_goals first
+    | rfl
+    | omega
+    | (simp_all <;> omega)
+    | (congr 1 <;> omega)
+    | (simp_all [Nat.mul_comm, Nat.add_comm] <;> done)
+    | grind))
+
 /-! ### shapes -/
 
 theorem major_stride (s : AxisShape) : Gen.AxisShape.major_stride s = .ok s.minor := rfl
@@ -29,8 +44,8 @@ theorem axis_to_shape (s : AxisShape) (o : Order) :
   cases o <;> rfl
 
 theorem shape_size (s : Shape) : Gen.Shape.size s = .ok s.size? := by
-  simp only [Gen.Shape.size, Shape.size?, checkedMul, okOr, pure, Except.pure]
-  by_cases h : s.nrows * s.ncols ≤ usizeMax <;> simp [h]
+  simp only [Gen.Shape.size, Shape.size?]
+  bridge_arith
 
 theorem to_axis_shape_unchecked (s : Shape) (o : Order) :
     Gen.Shape.to_axis_shape_unchecked s o = .ok (s.toAxis o) := by
@@ -63,22 +78,19 @@ theorem to_index (i : AxisIndex) (o : Order) :
 
 theorem to_flattened (i : AxisIndex) (s : AxisShape) (h : i.major * s.minor + i.minor ≤ usizeMax) :
     Gen.AxisIndex.to_flattened i s = .ok (i.flat s) := by
-  have h1 : i.major * s.minor ≤ usizeMax := by omega
-  have h2 : i.minor * 1 ≤ usizeMax := by omega
-  simp [Gen.AxisIndex.to_flattened, Gen.AxisShape.major_stride, Gen.AxisShape.minor_stride,
-    AxisIndex.flat, umul_ok h1, umul_ok h2, uadd_ok h, bind, Except.bind, pure, Except.pure]
+  simp only [Gen.AxisIndex.to_flattened, Gen.AxisShape.major_stride, Gen.AxisShape.minor_stride, AxisIndex.flat]
+  bridge_arith
 
 theorem from_flattened (k : Nat) (s : AxisShape) (h : s.minor ≠ 0) :
     Gen.AxisIndex.from_flattened k s = .ok (AxisIndex.ofFlat k s) := by
-  simp [Gen.AxisIndex.from_flattened, Gen.AxisShape.major_stride, Gen.AxisShape.minor_stride,
-    AxisIndex.ofFlat, udiv_ok h, urem_ok h, udiv_ok (by omega : (1 : Nat) ≠ 0), bind, Except.bind,
-    pure, Except.pure]
+  simp only [Gen.AxisIndex.from_flattened, Gen.AxisShape.major_stride, Gen.AxisShape.minor_stride, AxisIndex.ofFlat]
+  bridge_arith
 
 /-- with a zero minor extent the source divides by zero: a panic, before anything else -/
 theorem from_flattened_zero (k : Nat) (s : AxisShape) (h : s.minor = 0) :
     ∃ msg, Gen.AxisIndex.from_flattened k s = .error (.panic msg) := by
-  simp [Gen.AxisIndex.from_flattened, Gen.AxisShape.major_stride, udiv, h, bind, Except.bind,
-    pure, Except.pure]
+  simp only [Gen.AxisIndex.from_flattened, Gen.AxisShape.major_stride, Gen.AxisShape.minor_stride]
+  simp [udiv, urem, h, bind, Except.bind, pure, Except.pure]
 
 theorem index_from_flattened (k : Nat) (o : Order) (s : AxisShape) (h : s.minor ≠ 0) :
     Gen.Index.from_flattened k o s = .ok (Index.ofFlat k o s) := by
@@ -92,7 +104,11 @@ theorem index_to_flattened (i : Index) (o : Order) (s : AxisShape)
     pure, Except.pure]
 
 theorem is_out_of_bounds (i : AxisIndex) (m : Hdr) :
-    Gen.AxisIndex.is_out_of_bounds i m = .ok (i.oob m.shape) := rfl
+    Gen.AxisIndex.is_out_of_bounds i m = .ok (i.oob m.shape) := by
+  first
+  | rfl
+  | (simp only [Gen.AxisIndex.is_out_of_bounds, AxisIndex.oob, Hdr.major, Hdr.minor, pure, Except.pure]
+     by_cases h1 : i.major < m.shape.major <;> by_cases h2 : i.minor < m.shape.minor <;> simp [h1, h2] <;> omega)
 
 /-! ### wrapping indices (C13): Euclidean remainder -/
 
